@@ -320,8 +320,10 @@ fn run_c01(a: &Args) {
     let big = a.u64("big", 0) == 1;
     // back end: 0 = whatever the CPU detection picks, 1..5 = SSE2, SSSE3, SSE4.1, AVX, AVX2 (hook H1)
     let level = a.u64("level", 0) as u8;
-    #[cfg(cryptocorrosion_verif)]
+    #[cfg(all(cryptocorrosion_verif, not(feature = "no_simd")))]
     ppv_lite86::x86_64::verif::set_level(level);
+    #[cfg(feature = "no_simd")]
+    let _ = level;
     let mut rng = Rng::new(seed ^ 0xc01);
     let mut cases = Vec::new();
     let mut js = Vec::new();
@@ -455,6 +457,9 @@ fn gen_history(rng: &mut Rng, var: &Variant, mode: &str, maxops: usize, big: boo
                 }
                 let ty = pick_ty_for(rng, p);
                 ops.push(Op::Seek(ty, p));
+                if rng.chance(1, 5) {
+                    ops.push(Op::Apply(Vec::new())); // empty request right after a seek
+                }
             }
         } else if k < 85 {
             let n = gen_len(rng, big);
@@ -496,6 +501,10 @@ fn boundary_history(rng: &mut Rng, var: &Variant, sel: usize) -> Vec<Op> {
             let t = TYS[(sel / 12) % 7];
             ops.push(Op::Seek(t, r));
             ops.push(Op::Pos(Ty::U16));
+            if (sel / 12) % 2 == 1 {
+                ops.push(fill(rng, 0)); // an empty request while the block of the seek is still pending
+                ops.push(Op::Pos(Ty::U16));
+            }
             ops.push(fill(rng, 1));
             ops.push(fill(rng, (64 - r - 1) as usize)); // exactly to the end of block 0
             ops.push(Op::Pos(Ty::I32));
@@ -618,9 +627,12 @@ fn boundary_history(rng: &mut Rng, var: &Variant, sel: usize) -> Vec<Op> {
             // seek backwards into a block already consumed, and to the same place twice
             ops.push(fill(rng, 100));
             ops.push(Op::Seek(Ty::U8, 70));
+            ops.push(fill(rng, 0));
             ops.push(fill(rng, 10));
             ops.push(Op::Seek(Ty::U8, 70));
             ops.push(Op::Seek(Ty::U8, 70));
+            ops.push(fill(rng, 0));
+            ops.push(fill(rng, 0));
             ops.push(fill(rng, 10));
             ops.push(Op::Seek(Ty::U8, 64));
             ops.push(fill(rng, 64));
@@ -990,8 +1002,10 @@ fn run_c14(a: &Args) {
     let out = a.str("out", "/tmp/c14");
     // back end: 0 = whatever the CPU detection picks, 1..5 = SSE2, SSSE3, SSE4.1, AVX, AVX2 (hook H1)
     let level = a.u64("level", 0) as u8;
-    #[cfg(cryptocorrosion_verif)]
+    #[cfg(all(cryptocorrosion_verif, not(feature = "no_simd")))]
     ppv_lite86::x86_64::verif::set_level(level);
+    #[cfg(feature = "no_simd")]
+    let _ = level;
     let mut rng = Rng::new(seed ^ 0xc14);
     let mut cases = Vec::new();
     let mut js = Vec::new();
